@@ -590,6 +590,8 @@ def mask_screen(screen: Screen) -> Screen:
         plate_names=screen.plate_names,
         control_treatment_name=screen.control_treatment_name,
         observation_mask=np.zeros(screen.size, dtype=bool),
+        treatment_mapping=screen.treatment_mapping,
+        sample_mapping=screen.sample_mapping,
     )
 
 
@@ -602,6 +604,8 @@ def unmask_screen(screen: Screen) -> Screen:
         plate_names=screen.plate_names,
         control_treatment_name=screen.control_treatment_name,
         observation_mask=np.ones(screen.size, dtype=bool),
+        treatment_mapping=screen.treatment_mapping,
+        sample_mapping=screen.sample_mapping,
     )
 
 
@@ -745,6 +749,8 @@ def reveal_plates(
         plate_names=screen.plate_names,
         control_treatment_name=screen.control_treatment_name,
         observation_mask=screen.observation_mask | reveal_mask,
+        treatment_mapping=screen.treatment_mapping,
+        sample_mapping=screen.sample_mapping,
     )
 
 
